@@ -68,6 +68,15 @@ def main(argv):
   jobs = int(os.environ.get('VERIF_JOBS', '16') or 16)
   scratch_root = '/dev/shm' if os.path.isdir('/dev/shm') and os.access('/dev/shm', os.W_OK) \
       else tempfile.gettempdir()
+  # scratch directories of runs that were killed (wall-clock limit, SIGKILL) are not removed by
+  # their owner: sweep those older than three hours (a thorough run lasts under one)
+  try:
+    for name in os.listdir(scratch_root):
+      path = os.path.join(scratch_root, name)
+      if name.startswith('aeqsim-') and time.time() - os.path.getmtime(path) > 3 * 3600:
+        shutil.rmtree(path, ignore_errors=True)
+  except OSError:
+    pass
   scratch = tempfile.mkdtemp(prefix='aeqsim-%s-' % prop, dir=scratch_root)
   try:
     if '--replay' in argv:
